@@ -1,0 +1,32 @@
+//go:build verif
+
+package build
+
+import "go/ast"
+
+// VerifAugment exposes the overlay merge of parseAndAugment for already parsed
+// files: it applies exactly the same sequence of steps (augmentOverlayFile on
+// every overlay file, removal of the "init" override, augmentOriginalImports
+// and augmentOriginalFile on every original file) and returns overlay files
+// followed by original files, as parseAndAugment does.
+//
+// Verification hook: compiled only with the "verif" build tag.
+func VerifAugment(importPath string, overlayFiles, originalFiles []*ast.File) []*ast.File {
+	overrides := make(map[string]overrideInfo)
+	for _, file := range overlayFiles {
+		augmentOverlayFile(file, overrides)
+	}
+	delete(overrides, "init")
+
+	for _, file := range originalFiles {
+		augmentOriginalImports(importPath, file)
+	}
+
+	if len(overrides) > 0 {
+		for _, file := range originalFiles {
+			augmentOriginalFile(file, overrides)
+		}
+	}
+
+	return append(overlayFiles, originalFiles...)
+}
